@@ -429,14 +429,14 @@ Fixpoint rs_aligned (rest : list Z) (results : list (Z * Z)) : Prop :=
       exists cl rest', split_cl rest adv = Some (cl, rest') /\ is_boundary cl tl /\ rs_aligned rest' rs
   end.
 
-Fixpoint rs_faithful (start : pos) (data gcs : list Z) (off : Z)
+Fixpoint rs_faithful (nl : list Z -> bool) (start : pos) (data gcs : list Z) (off : Z)
     (results : list (Z * Z)) (out : list range) : Prop :=
   match out, results with
   | [], _ => True
   | rg :: out', (adv, tl) :: rs =>
-      pos_at is_nl_rs start data gcs off = Some (r_start rg) /\
-      pos_at is_nl_rs start data gcs (off + tl) = Some (r_end rg) /\
-      rs_faithful start data gcs (off + adv) rs out'
+      pos_at nl start data gcs off = Some (r_start rg) /\
+      pos_at nl start data gcs (off + tl) = Some (r_end rg) /\
+      rs_faithful nl start data gcs (off + adv) rs out'
   | _ :: _, [] => False
   end.
 
@@ -448,49 +448,58 @@ Proof.
   symmetry. apply count_prefix; [exact Hf|]. rewrite zlen_firstn_le; lia.
 Qed.
 
-Lemma range_scanner_faithful_gen (start : pos) (b gcs : list Z) :
-  0 <= p_byte start ->
-  let data := skipn (Z.to_nat (p_byte start)) b in
+Lemma split_cl_app_l : forall cl tl c1 c2 rest',
+  split_cl cl tl = Some (c1, c2) -> split_cl (cl ++ rest') tl = Some (c1, c2 ++ rest').
+Proof.
+  induction cl as [|n cl IHc]; intros tl c1 c2 rest' H.
+  - cbn [split_cl] in H. destruct (tl =? 0) eqn:E; [|discriminate]. inversion H; subst.
+    apply Z.eqb_eq in E. subst tl. cbn [app]. apply split_cl_0.
+  - cbn [split_cl] in H. destruct (tl =? 0) eqn:E.
+    + inversion H; subst. apply Z.eqb_eq in E. subst tl. apply split_cl_0.
+    + destruct ((0 <? n) && (n <=? tl)) eqn:Ec; [|discriminate].
+      destruct (split_cl cl (tl - n)) as [[x y]|] eqn:Es; [|discriminate]. inversion H; subst.
+      apply (IHc _ _ _ rest') in Es. cbn [app split_cl]. rewrite E, Ec, Es. reflexivity.
+Qed.
+
+(* the scanner under its own line-break test, over the whole buffer b; the
+   reported positions are offset by start, the buffer offset starts at 0 *)
+Lemma rs_run_faithful (start : pos) (b gcs : list Z) :
   forall results p rest lo pre l c,
   split_cl gcs lo = Some (pre, rest) ->
   Forall (fun n => 0 < n) rest ->
-  sumZ rest = zlen (skipn (Z.to_nat lo) data) ->
-  count_clusters is_nl_rs (p_line start) (p_col start) data pre = (l, c) ->
+  sumZ rest = zlen (skipn (Z.to_nat lo) b) ->
+  count_clusters is_nl_rs (p_line start) (p_col start) b pre = (l, c) ->
   p = mkPos l c (p_byte start + lo) ->
   rs_aligned rest results ->
-  exists out, range_scanner_gcs p b results rest = Some out /\
-              rs_faithful start data gcs (p_byte start + lo) results out.
+  exists out, rs_run_gcs p lo b results rest = Some out /\
+              rs_faithful is_nl_rs start b gcs (p_byte start + lo) results out.
 Proof.
-  intros Hsb data. induction results as [|[adv tl] rs IH]; intros p rest lo pre l c Hsp Hpos Hsum Hcnt Hp Hal.
+  induction results as [|[adv tl] rs IH]; intros p rest lo pre l c Hsp Hpos Hsum Hcnt Hp Hal.
   - exists []. split; [reflexivity|exact I].
-  - cbn [range_scanner_gcs]. destruct (zlen b <=? p_byte p); [exists []; split; [reflexivity|exact I]|].
+  - cbn [rs_run_gcs]. destruct (zlen b <=? lo); [exists []; split; [reflexivity|exact I]|].
     destruct Hal as (Htl & cl & rest' & Hcl & (c1 & c2 & Hc1) & Hal).
     pose proof (split_cl_spec _ _ _ _ Hsp) as (Hgcs & Hsumpre & Hfpre).
     pose proof (split_cl_spec _ _ _ _ Hcl) as (Hrest & Hsumcl & Hfcl).
     pose proof (split_cl_spec _ _ _ _ Hc1) as (Hcl12 & Hsumc1 & Hfc1).
     assert (Hlo0 : 0 <= lo) by (rewrite <- Hsumpre; apply sumZ_nonneg; exact Hfpre).
     rewrite Hcl.
-    set (X := skipn (Z.to_nat lo) data) in *.
+    set (X := skipn (Z.to_nat lo) b) in *.
     assert (Hposr' : Forall (fun n => 0 < n) rest').
     { rewrite Hrest in Hpos. apply Forall_app in Hpos. tauto. }
     assert (Hfrest' : 0 <= sumZ rest') by (apply sumZ_nonneg; exact Hposr').
-    assert (Hadv : 0 <= adv <= zlen X).
-    { assert (Hx : sumZ rest = sumZ cl + sumZ rest') by (rewrite Hrest; apply sumZ_app). lia. }
-    (* the slice handed to the loop *)
-    assert (Hslice : slice b (p_byte p) (p_byte p + adv) = firstn (Z.to_nat adv) X).
-    { unfold slice. rewrite Hp. cbn [p_byte]. replace (p_byte start + lo + adv - (p_byte start + lo)) with adv by lia.
-      f_equal. unfold X, data. rewrite skipn_skipn'. f_equal. lia. }
+    assert (Hx : sumZ rest = sumZ cl + sumZ rest') by (rewrite Hrest; apply sumZ_app).
+    assert (Hadv : 0 <= adv <= zlen X) by lia.
+    assert (Hslice : slice b lo (lo + adv) = firstn (Z.to_nat adv) X).
+    { unfold slice. replace (lo + adv - lo) with adv by lia. reflexivity. }
     unfold rs_scan. rewrite Hslice.
     destruct (rs_loop p p 0 tl (firstn (Z.to_nat adv) X) cl) as [new e] eqn:Hloop.
     assert (Hzf : zlen (firstn (Z.to_nat adv) X) = adv) by (apply zlen_firstn_le; exact Hadv).
-    (* new *)
     assert (Hnew : new = (let '(l2, c2) := count_clusters is_nl_rs l c X cl in mkPos l2 c2 (p_byte start + (lo + adv)))).
     { assert (Hle : sumZ cl <= zlen (firstn (Z.to_nat adv) X)) by lia.
       pose proof (rs_loop_new cl p p 0 tl (firstn (Z.to_nat adv) X) Hfcl Hle) as Hn.
       rewrite Hloop in Hn. cbn [fst] in Hn. rewrite Hn. rewrite Hp. cbn [p_line p_col p_byte].
       rewrite (count_firstn is_nl_rs l c X adv cl Hfcl) by lia.
       destruct (count_clusters is_nl_rs l c X cl). f_equal. lia. }
-    (* end *)
     assert (Hend : e = (let '(l1, c1') := count_clusters is_nl_rs l c X c1 in mkPos l1 c1' (p_byte start + (lo + tl)))).
     { destruct (Z.eq_dec tl 0) as [Hz|Hnz].
       - rewrite Hz in Hc1, Hloop |- *. rewrite split_cl_0 in Hc1. inversion Hc1; subst c1 c2.
@@ -500,35 +509,21 @@ Proof.
         rewrite Hloop in He. cbn [snd] in He. rewrite He; [|lia|lia|rewrite Z.sub_0_r; exact Hc1].
         rewrite Hp. cbn [p_line p_col p_byte].
         assert (Hs12 : sumZ cl = sumZ c1 + sumZ c2) by (rewrite Hcl12; apply sumZ_app).
-        pose proof (split_cl_spec _ _ _ _ Hc1) as (_ & _ & _).
         assert (Hc2 : 0 <= sumZ c2).
         { assert (Forall (fun k => 0 < k) c2).
           { rewrite Hcl12 in Hfcl. apply Forall_app in Hfcl. tauto. }
           apply sumZ_nonneg. assumption. }
         rewrite (count_firstn is_nl_rs l c X adv c1 Hfc1) by lia.
         destruct (count_clusters is_nl_rs l c X c1). f_equal. lia. }
-    (* canonical positions *)
     assert (Hsp_adv : split_cl gcs (lo + adv) = Some (pre ++ cl, rest')).
     { rewrite (split_cl_add gcs lo adv pre rest Hsp) by lia. rewrite Hcl. reflexivity. }
     assert (Hsp_tl : split_cl gcs (lo + tl) = Some (pre ++ c1, c2 ++ rest')).
     { rewrite (split_cl_add gcs lo tl pre rest Hsp) by lia.
-      assert (Hx : split_cl rest tl = Some (c1, c2 ++ rest')).
-      { rewrite Hrest. replace tl with (tl + 0) by lia.
-        (* split of cl ++ rest' at tl *)
-        clear - Hc1. revert tl c1 c2 Hc1. induction cl as [|n cl IHc]; intros tl c1 c2 H.
-        - cbn [split_cl] in H. destruct (tl =? 0) eqn:E; [|discriminate]. inversion H; subst.
-          apply Z.eqb_eq in E. subst tl. cbn [app]. apply split_cl_0.
-        - cbn [split_cl] in H. destruct (tl =? 0) eqn:E.
-          + inversion H; subst. apply Z.eqb_eq in E. subst tl. apply split_cl_0.
-          + destruct ((0 <? n) && (n <=? tl)) eqn:Ec; [|discriminate].
-            destruct (split_cl cl (tl - n)) as [[x y]|] eqn:Es; [|discriminate]. inversion H; subst.
-            apply IHc in Es. rewrite Z.add_0_r in *. cbn [app split_cl]. rewrite E, Ec, Es. reflexivity. }
-      rewrite Hx. reflexivity. }
-    assert (Hskip : skipn (Z.to_nat (sumZ pre)) data = X) by (unfold X; rewrite Hsumpre; reflexivity).
+      rewrite Hrest, (split_cl_app_l _ _ _ _ rest' Hc1). reflexivity. }
+    assert (Hskip : skipn (Z.to_nat (sumZ pre)) b = X) by (unfold X; rewrite Hsumpre; reflexivity).
     destruct (count_clusters is_nl_rs l c X cl) as [l2 c2'] eqn:Hcc.
     destruct (IH new rest' (lo + adv) (pre ++ cl) l2 c2') as (out & Hout & Hfa); auto.
-    { assert (Hx : sumZ rest = sumZ cl + sumZ rest') by (rewrite Hrest; apply sumZ_app).
-      replace (skipn (Z.to_nat (lo + adv)) data) with (skipn (Z.to_nat adv) X).
+    { replace (skipn (Z.to_nat (lo + adv)) b) with (skipn (Z.to_nat adv) X).
       - unfold zlen in *. rewrite skipn_length. lia.
       - unfold X. rewrite skipn_skipn'. f_equal. lia. }
     { rewrite (count_app _ _ _ _ _ _ Hfpre), Hcnt, Hskip. exact Hcc. }
@@ -542,47 +537,136 @@ Proof.
     + replace (p_byte start + lo + adv) with (p_byte start + (lo + adv)) by lia. exact Hfa.
 Qed.
 
-(* RangeScanner.Scan under ITS OWN convention (a cluster starting with '\r' or
-   '\n' is a line break): for any split function whose advances and tokens end
-   on cluster boundaries, every Start is pos_at of its offset and every End is
-   pos_at of Start + len(token). `data` is what the scanner actually scans:
-   b[start.Byte:] — the start position's Byte field indexes the buffer. *)
+(* ---- RangeScanner's line-break test and the lexer's coincide --------------------------- *)
+
+(* every cluster of the segmentation cl of b is classified alike by the two
+   tests; for is_nl_rs / is_nl_lexer this says: a cluster ending in '\n' is
+   "\n" or "\r\n" (true of every UAX #29 segmentation, rules GB4/GB5) *)
+Fixpoint clusters_agree (nl1 nl2 : list Z -> bool) (b : list Z) (cl : list Z) : Prop :=
+  match cl with
+  | [] => True
+  | n :: cl' =>
+      nl1 (firstn (Z.to_nat n) b) = nl2 (firstn (Z.to_nat n) b) /\
+      clusters_agree nl1 nl2 (skipn (Z.to_nat n) b) cl'
+  end.
+
+Lemma count_agree nl1 nl2 : forall pre post l c b,
+  clusters_agree nl1 nl2 b (pre ++ post) ->
+  count_clusters nl1 l c b pre = count_clusters nl2 l c b pre.
+Proof.
+  induction pre as [|n pre IH]; intros post l c b H; [reflexivity|].
+  destruct H as (E & H). cbn [count_clusters]. rewrite E.
+  destruct (nl2 (firstn (Z.to_nat n) b)); eapply IH; exact H.
+Qed.
+
+Lemma pos_at_agree nl1 nl2 start data gcs off :
+  clusters_agree nl1 nl2 data gcs ->
+  pos_at nl1 start data gcs off = pos_at nl2 start data gcs off.
+Proof.
+  intro H. unfold pos_at. destruct (split_cl gcs (off - p_byte start)) as [[pre post]|] eqn:E; [|reflexivity].
+  apply split_cl_spec in E. destruct E as (-> & _ & _).
+  rewrite (count_agree nl1 nl2 pre post _ _ _ H). reflexivity.
+Qed.
+
+Lemma rs_faithful_agree nl1 nl2 start data gcs :
+  clusters_agree nl1 nl2 data gcs ->
+  forall out results off, rs_faithful nl1 start data gcs off results out ->
+                          rs_faithful nl2 start data gcs off results out.
+Proof.
+  intro H. induction out as [|rg out IH]; intros results off Hf; [destruct results as [|[? ?] ?]; exact I|].
+  destruct results as [|[adv tl] rs]; [exact Hf|]. destruct Hf as (H1 & H2 & H3).
+  cbn [rs_faithful]. rewrite <- !(pos_at_agree nl1 nl2 start data gcs _ H). auto.
+Qed.
+
+(* THE RANGESCANNER THEOREM. For any start position, any buffer b (a whole file
+   or a fragment), any segmentation gcs of b in which a cluster ending in '\n'
+   is "\n" or "\r\n", and any split function whose advances and tokens end on
+   cluster boundaries: every Start is the canonical position — the SAME pos_at
+   is_nl_lexer as for the lexer — of its offset in b, counted from start, and
+   every End that of Start + len(token). The whole of b is scanned. *)
 Theorem range_scanner_faithful : forall (start : pos) (b gcs : list Z) (results : list (Z * Z)),
-  0 <= p_byte start ->
-  let data := skipn (Z.to_nat (p_byte start)) b in
-  Forall (fun n => 0 < n) gcs -> sumZ gcs = zlen data ->
+  Forall (fun n => 0 < n) gcs -> sumZ gcs = zlen b ->
+  clusters_agree is_nl_rs is_nl_lexer b gcs ->
   rs_aligned gcs results ->
   exists out, range_scanner_gcs start b results gcs = Some out /\
-              rs_faithful start data gcs (p_byte start) results out.
+              rs_faithful is_nl_lexer start b gcs (p_byte start) results out.
 Proof.
-  intros start b gcs results Hsb data Hpos Hsum Hal.
-  destruct (range_scanner_faithful_gen start b gcs Hsb results start gcs 0 [] (p_line start) (p_col start))
+  intros start b gcs results Hpos Hsum Hag Hal.
+  destruct (rs_run_faithful start b gcs results start gcs 0 [] (p_line start) (p_col start))
     as (out & Hout & Hf); auto.
   - apply split_cl_0.
   - destruct start as [sl sc sb0]; cbn [p_line p_col p_byte]. rewrite Z.add_0_r. reflexivity.
-  - exists out. split; [exact Hout|]. rewrite Z.add_0_r in Hf. exact Hf.
+  - exists out. split; [exact Hout|]. rewrite Z.add_0_r in Hf.
+    eapply rs_faithful_agree; eassumption.
 Qed.
 
-(* ---- the two line-break conventions differ on a lone CR --------------------------- *)
+(* ---- RangeScanner and the lexer report the same positions ---------------------------- *)
 
-(* "a\rb\nc\n", every byte its own cluster (textseg's segmentation), offset 4
-   = the byte 'c': line 2 for emitToken's convention, line 3 for RangeScanner's *)
-Theorem conventions_differ_on_lone_cr :
+Lemma pos_at_byte nl start data gcs off p : pos_at nl start data gcs off = Some p -> p_byte p = off.
+Proof.
+  unfold pos_at. destruct (split_cl gcs (off - p_byte start)) as [[pre post]|]; [|discriminate].
+  destruct (count_clusters nl (p_line start) (p_col start) data pre). intro H. inversion H. reflexivity.
+Qed.
+
+Definition canonical (start : pos) (data gcs : list Z) (p : pos) : Prop :=
+  pos_at is_nl_lexer start data gcs (p_byte p) = Some p.
+
+Lemma rs_faithful_canonical start data gcs : forall out results off,
+  rs_faithful is_nl_lexer start data gcs off results out ->
+  forall rg, In rg out -> canonical start data gcs (r_start rg) /\ canonical start data gcs (r_end rg).
+Proof.
+  induction out as [|r0 out IH]; intros results off Hf rg Hin; [destruct Hin|].
+  destruct results as [|[adv tl] rs]; [destruct Hf|]. destruct Hf as (H1 & H2 & H3).
+  destruct Hin as [<-|Hin]; [|eapply IH; eassumption].
+  unfold canonical. rewrite (pos_at_byte _ _ _ _ _ _ H1), (pos_at_byte _ _ _ _ _ _ H2). auto.
+Qed.
+
+Lemma tok_faithful_canonical start data gcs : forall toks out,
+  Forall2 (tok_faithful start data gcs) toks out ->
+  forall tk, In tk out ->
+    canonical start data gcs (r_start (t_range tk)) /\ canonical start data gcs (r_end (t_range tk)).
+Proof.
+  induction 1 as [|t tk0 toks out (_ & _ & H1 & H2) _ IH]; intros tk Hin; [destruct Hin|].
+  destruct Hin as [<-|Hin]; [|apply IH; exact Hin].
+  unfold canonical. rewrite (pos_at_byte _ _ _ _ _ _ H1), (pos_at_byte _ _ _ _ _ _ H2). auto.
+Qed.
+
+(* AGREEMENT. Same buffer, same start position, same segmentation: whenever a
+   position reported by the lexer (a token's Start or End) and a position
+   reported by RangeScanner (a range's Start or End) have the same byte offset,
+   they are the same position (line and column). *)
+Theorem range_scanner_agrees_with_lexer :
+  forall (blank : Z -> bool), (forall c, blank c = true -> is_nl_lexer [c] = false) ->
+  forall (start : pos) (b gcs : list Z) (toks : list rtok) (results : list (Z * Z)),
+  tiled (blank_gap blank) 0 b toks -> aligned gcs 0 toks ->
+  Forall (fun n => 0 < n) gcs -> sumZ gcs = zlen b ->
+  clusters_agree is_nl_rs is_nl_lexer b gcs -> rs_aligned gcs results ->
+  exists outT outR,
+    emit_all_gcs (mkAcc start (p_byte start)) gcs toks = Some outT /\
+    range_scanner_gcs start b results gcs = Some outR /\
+    forall tk rg p q, In tk outT -> In rg outR ->
+      (p = r_start (t_range tk) \/ p = r_end (t_range tk)) ->
+      (q = r_start rg \/ q = r_end rg) ->
+      p_byte p = p_byte q -> p = q.
+Proof.
+  intros blank Hbl start b gcs toks results Ht Hal Hpos Hsum Hag Hrs.
+  destruct (positions_faithful blank Hbl start b gcs toks Ht Hal) as (outT & HoT & HfT).
+  destruct (range_scanner_faithful start b gcs results Hpos Hsum Hag Hrs) as (outR & HoR & HfR).
+  exists outT, outR. split; [exact HoT|]. split; [exact HoR|].
+  intros tk rg p q Htk Hrg Hp Hq Hb.
+  destruct (tok_faithful_canonical start b gcs toks outT HfT tk Htk) as (Ct1 & Ct2).
+  destruct (rs_faithful_canonical start b gcs outR results _ HfR rg Hrg) as (Cr1 & Cr2).
+  assert (Cp : canonical start b gcs p) by (destruct Hp as [-> | ->]; assumption).
+  assert (Cq : canonical start b gcs q) by (destruct Hq as [-> | ->]; assumption).
+  unfold canonical in *. rewrite Hb in Cp. rewrite Cp in Cq. inversion Cq. reflexivity.
+Qed.
+
+(* the two tests on a lone CR: "a\rb\nc\n", every byte its own cluster: the
+   byte 'c' (offset 4) is on line 2 for both *)
+Theorem conventions_agree_on_lone_cr :
   let data := [97; 13; 98; 10; 99; 10] in
   let gcs := [1; 1; 1; 1; 1; 1] in
+  clusters_agree is_nl_rs is_nl_lexer data gcs /\
   pos_at is_nl_lexer initial_pos data gcs 4 = Some (mkPos 2 1 4) /\
-  pos_at is_nl_rs initial_pos data gcs 4 = Some (mkPos 3 1 4).
-Proof. vm_compute. split; reflexivity. Qed.
-
-(* Hence "RangeScanner's positions are the canonical positions of the lexer's
-   convention" is false: *)
-Theorem range_scanner_agrees_with_lexer_convention_refuted :
-  exists (b gcs : list Z) (results : list (Z * Z)) (cls : list (list Z)) (rg : range),
-    In rg (range_scanner initial_pos b results cls) /\
-    pos_at is_nl_lexer initial_pos b gcs (p_byte (r_start rg)) <> Some (r_start rg).
-Proof.
-  (* bufio.ScanLines on "a\rb\nc\n": ("a\rb", advance 4), ("c", advance 2) *)
-  exists [97; 13; 98; 10; 99; 10], [1; 1; 1; 1; 1; 1], [(4, 3); (2, 1)], [[1; 1; 1; 1]; [1; 1]],
-         (mkRange (mkPos 3 1 4) (mkPos 3 2 5)).
-  split; [vm_compute; right; left; reflexivity|vm_compute; discriminate].
-Qed.
+  pos_at is_nl_rs initial_pos data gcs 4 = Some (mkPos 2 1 4).
+Proof. vm_compute. repeat split; reflexivity. Qed.
